@@ -106,6 +106,8 @@ impl TxBatchBuilder {
                 .set_min_ada_for_tx(&mut current_tx_proposal)?;
             self.asset_groups
                 .check_finished_tx_proposal(&current_tx_proposal, tx_size)?;
+            #[cfg(csl_verif)]
+            crate::verif_hooks_c13::record_send_all_trace(&current_tx_proposal.verif_trace);
             self.tx_proposals.push(current_tx_proposal);
         }
 
